@@ -66,6 +66,9 @@ def network(j, g, rng, attrs=True):
             H.edges[e]["color"] = 1
         H["wt"] = [7]
         H["color"] = 2
+    if attrs and rng.random() < 0.3:  # attribute names that are parameter names of add_node / add_edge
+        H.set_node_attributes({n: {"node": 4} for n in list(H.nodes)[-1:]})
+        H.set_edge_attributes({e: {"idx": 2, "members": 1} for e in list(H.edges)[-1:]})
     return H
 
 
@@ -227,6 +230,36 @@ def directed_records(tag, j, g, rng):
                            what=f"{conv} ({g.name})"))
         else:
             out.append(rec(f"{tag}.{conv}", "C10", conv, "everything", flat, None, res if res != "ok" else "wrong-class",
+                           da, False, what=f"{conv} ({g.name})"))
+    # representations that keep the incidences with their direction (also for nodes on both sides of an edge)
+    def inc(d):
+        return ({(e, n) for e, t in zip(d["edges"], d["tail"]) for n in t}, {(e, n) for e, h in zip(d["edges"], d["head"]) for n in h})
+
+    def via_graph():
+        G, itn, ite = xgi.to_bipartite_graph(D, index=True)
+        gm = MapGamma(g, node_map={i: g.inv_node(lab) for i, lab in itn.items()},
+                      edge_map={i: g.inv_edge(lab) for i, lab in ite.items()})
+        return xgi.from_bipartite_graph(G), gm
+
+    def via_edgelist():
+        return xgi.from_bipartite_edgelist(xgi.to_bipartite_edgelist(D)), g
+
+    has_inc = any(dsrc["tail"]) or any(dsrc["head"])
+    for conv, f in (("bipartite_graph(DiHypergraph)", via_graph), ("bipartite_edgelist(DiHypergraph)", via_edgelist)):
+        if conv.startswith("bipartite_edgelist") and not has_inc:
+            continue  # an empty list carries no class either
+        rr, res = _do(f)
+        if rr is not None and type(rr[0]) is xgi.DiHypergraph:
+            d2, a2 = dhg.proj(rr[0], rr[1])
+            fl2 = dict(flat)
+            fl2.update({k: d2[k] for k in ("nodes", "edges", "nak", "eak", "nattr", "eattr", "gattr", "uid")})
+            fl2["e2n"] = [sorted(set(t) | set(h)) for t, h in zip(d2["tail"], d2["head"])]
+            fl2["n2e"] = [sorted(set(a) | set(b)) for a, b in zip(d2["nout"], d2["nin"])]
+            out.append(rec(f"{tag}.{conv}", "C10", conv, "bipartite_graph" if conv.startswith("bipartite_graph") else "incidences", flat, fl2, res,
+                           sorted(set(da + a2)) + ([] if inc(d2) == inc(dsrc) else ["direction-not-preserved"]), True,
+                           what=f"{conv} ({g.name})"))
+        else:
+            out.append(rec(f"{tag}.{conv}", "C10", conv, "incidences", flat, None, res if res != "ok" else "wrong-class",
                            da, False, what=f"{conv} ({g.name})"))
     return out
 
